@@ -198,8 +198,14 @@ structure Obs (ε : Type) where
   removed : List ε := []
 deriving Repr
 
+/-- the set a consumer holds after the cycle (`[]`: no value) -/
+def obsSet {ε : Type} (o : Obs ε) : List ε := if o.valid then o.value else []
+
 section Publication
 variable {κ ε : Type} [DecidableEq κ] [DecidableEq ε]
+
+/-- the view of "no source" (`TSDataView{}`) -/
+def noView : SView ε := {}
 
 /-- `bind_reduce_output(output, source)` = `bind_forwarding_output_tree_to_source(…, sampled = true)`:
     unbound source -> clear (when bound); same target -> nothing; otherwise a sampled re-point -/
@@ -224,9 +230,6 @@ def beginKeyed (pv : SView ε) (p : Pub κ ε) (src : PSrc κ) (sampleAll : Bool
 /-- `begin_direct_reduce_publication` -/
 def beginDirect (p : Pub κ ε) (src : PSrc κ) : Pub κ ε := bindDirect p src
 
-/-- the view of "no source" (`TSDataView{}`) -/
-def noView : SView ε := {}
-
 /-- `finish_reduce_publication(storage, evaluation_time)`; `view` gives the outputs as they stand after
     the evaluation loop -/
 def finishPub (view : PSrc κ → SView ε) (p : Pub κ ε) : Pub κ ε :=
@@ -235,22 +238,26 @@ def finishPub (view : PSrc κ → SView ε) (p : Pub κ ε) : Pub κ ε :=
     let s := if p.pending = .unbound then noView else view p.pending
     { p with snap := reconcileSet p.fullRec p.sampleAll p.snap s, fullRec := false, sampleAll := false }
 
+/-- the node's output while it forwards to the source `s`; `seen` is the set the consumer held at the end
+    of the previous cycle (`[]`: none).  A sampled re-point is a tick at which a set input reports the
+    difference between what it held and the value of the new target. -/
+def observeDirect (s : SView ε) (rebound : Bool) (seen : List ε) : Obs ε :=
+  if rebound then
+    if s.live then
+      { valid := true, value := s.value, modified := true, added := diffL s.value seen, removed := diffL seen s.value }
+    else { modified := !seen.isEmpty, removed := seen }
+  else if !s.live then {}
+  else
+    { valid := true, value := s.value, modified := s.modified,
+      added := if s.modified then s.added else [], removed := if s.modified then s.removed else [] }
+
 /-- the node's output as its consumers see it at the end of the cycle -/
-def observe (view : PSrc κ → SView ε) (p : Pub κ ε) : Obs ε :=
+def observe (view : PSrc κ → SView ε) (p : Pub κ ε) (seen : List ε) : Obs ε :=
   if p.active then
     { valid := p.snap.hasValue, value := p.snap.value, modified := p.snap.modified,
       added := if p.snap.modified then p.snap.added else [],
       removed := if p.snap.modified then p.snap.removed else [] }
-  else if p.target = .unbound then {}
-  else
-    let s := view p.target
-    if !s.live then {}
-    else if p.rebound then
-      -- a sampled re-point to a valid source: a tick presenting the whole value
-      { valid := true, value := s.value, modified := true, added := s.value, removed := [] }
-    else
-      { valid := true, value := s.value, modified := s.modified,
-        added := if s.modified then s.added else [], removed := if s.modified then s.removed else [] }
+  else observeDirect (if p.target = .unbound then noView else view p.target) p.rebound seen
 
 /-- what `rebuild_structure` hands to `publication_ops->begin` -/
 structure RootEv (κ : Type) where
@@ -287,6 +294,8 @@ structure KIn (κ ε : Type) where
 structure KSt (κ ε : Type) where
   g : GSt κ (List ε) := {}
   pub : Pub κ ε := {}
+  /-- the value a consumer of the result holds (`[]`: none) -/
+  seen : List ε := []
 
 structure KOut (κ ε : Type) where
   st : KSt κ ε
@@ -357,13 +366,16 @@ def cycleK (keyed hasZero : Bool) (s : KSt κ ε) (i : KIn κ ε) : KOut κ ε :
   let view := curView hasZero s.g fresh r.st i
   let pv := prevView hasZero s.g i s.pub.target
   let pub := pubCycle keyed pv view s.pub ev true
-  { st := { g := r.st, pub := pub }, obs := observe view pub, root := root }
+  let obs := observe view pub s.seen
+  { st := { g := r.st, pub := pub, seen := obsSet obs }, obs := obs, root := root }
 
 /-- an engine cycle in which the node is NOT evaluated: a new time begins, nothing else -/
 def idleK (hasZero : Bool) (s : KSt κ ε) (i : KIn κ ε) : KOut κ ε :=
   let view := curView hasZero s.g (fun _ => false) s.g i
   let pub := pubCycle true noView view s.pub none false
-  { st := { s with pub := pub }, obs := observe view pub, root := rootId hasZero s.g.tree }
+  let obs := observe view pub s.seen
+  { st := { s with pub := pub, seen := obsSet obs }, obs := obs,
+    root := rootId hasZero s.g.tree }
 
 end CycleK
 
